@@ -1,0 +1,15 @@
+//go:build verif
+
+package quasigo
+
+// Verification hooks (build tag verif): read-only access to the environment's table of user functions.
+
+// VerifUserFuncs returns the compiled user functions in function ID order (env.userFuncs).
+func VerifUserFuncs(env *Env) []*Func {
+	return append([]*Func(nil), env.userFuncs...)
+}
+
+// VerifEvalEnvUserFuncs returns the user functions an evaluation handle runs calls against, in function ID order.
+func VerifEvalEnvUserFuncs(env *EvalEnv) []*Func {
+	return append([]*Func(nil), env.userFuncs...)
+}
